@@ -272,7 +272,7 @@ def rotate_cases():
 
 
 def generate(rng, tier):
-    n = 40000 if tier == 'thorough' else 800
+    n = 40000 if tier == 'thorough' else 700
     cases = boundary_cases() + bb_boundary() + rotate_cases()
     if has_bb_hook():
         cases += find_cases()
